@@ -45,7 +45,7 @@ type gen struct {
 	tees   map[string]int // tee branch id -> stream offset at the tee point
 	// bufStart is the stream offset at which the matching buffer of the current Connection starts
 	bufStart int
-	ended  bool
+	ended    bool
 }
 
 func (g *gen) id(prefix string) string {
